@@ -15,6 +15,7 @@ leveldbstorage.Storage (goleveldb memory storage); the raw store is read back wi
 iterator after every step (fillers folded into runs [key, value, from, to] on both sides)."""
 import os
 import re
+import time
 from vlib import core
 
 ON_STORE = {"Put", "Get", "Exists", "Delete", "Iter", "Batch", "Fill", "Remove", "Close"}
@@ -267,8 +268,15 @@ def slim(st):
 
 def run(ctx):
     quick = ctx.tier == "quick"
+    phase, t0 = {}, [time.time()]
+
+    def lap(name):
+        phase[name] = round(time.time() - t0[0], 1)
+        t0[0] = time.time()
+
     cfg = "PrefixStorage_mc_quick.cfg" if quick else "PrefixStorage_mc_thorough.cfg"
     r, steps = ctx.tlc_dump_steps("PrefixStorage", cfg, timeout=2400)
+    lap("tlc_cases")
     if not steps:
         raise core.MachineryError("no depth-1 states dumped")
     for s in steps:
@@ -281,9 +289,11 @@ def run(ctx):
     rc = ctx.tlc("PrefixStorage", "PrefixStorage_mc_closed.cfg", allow_violation=True, timeout=900, count=False)
     ctx.extra["model_candidate_ImplAgrees(closed storages)"] = (
         "violated: " + (rc.violated or "?") if rc.safety_violation else "holds")
+    lap("tlc_closed")
     # every history of calls on one long-lived object, sizes around the removers' batch limit
     hcfg = "PrefixStorage_hist_quick.cfg" if quick else "PrefixStorage_hist_thorough.cfg"
     rh, seqs, hdepth = hist_sequences(ctx, hcfg, 3000)
+    lap("tlc_hist")
     runs = []     # (offset, length, kind, label)
     for n_, (tags, sq) in enumerate(seqs):
         sq = [dict(st) for st in sq]
@@ -293,6 +303,7 @@ def run(ctx):
         runs.append((len(steps), len(sq), "history", tags))
         steps.extend(sq)
     _, behs = ctx.tlc_simulate("PrefixStorage", "PrefixStorage_sim.cfg", num=60 if quick else 800, depth=41)
+    lap("tlc_walks")
     for b in behs:
         b[0]["new"] = 1
         runs.append((len(steps), len(b), "walk", None))
@@ -307,6 +318,7 @@ def run(ctx):
     res = os.path.join(ctx.work, "res.ndjson")
     ctx.vh(["C25", "replay", "--in", cases, "--out", res], timeout=3000)
     rows = core.read_ndjson(res)
+    lap("replay")
     hang = None
     if rows and rows[-1].get("hang"):
         # a call that did not return within the watchdog time: judge what was answered, then no verdict (exit 2)
@@ -374,6 +386,8 @@ def run(ctx):
     if hang is not None and not ctx.viol:
         raise core.MachineryError("the call %s (store before %s) did not return within the watchdog time; %d of %d steps answered"
                                   % (hang["op"], hang["pre"], len(rows), len(steps)))
+    lap("judge")
+    ctx.extra["phase_s"] = phase
     ctx.extra["real_calls"] = len(rows)
     ctx.extra["calls_judged_as_cases"] = calls
     ctx.extra["independent_cases"] = nexh
